@@ -8,6 +8,15 @@ PROPS = ['C04', 'C07', 'C05', 'C02', 'C13', 'C08', 'C14']
 T = 'src/types.rs'
 
 
+# mutation canaries (thorough tier): textual mutations of the EXTRACTED copy that must each fail an obligation of the named item
+MUTANTS = [
+    ('utils::greatest_lower_bound', '\\(0\\.\\.idx\\)\\.rev\\(\\)', '(1..idx).rev()'),
+    ('utils::greatest_lower_bound', 'index\\.checked_sub\\(1\\)', 'index.checked_sub(2)'),
+    ('types::SourceMap::lookup_token', 'token\\.is_range\\(\\) && token\\.get_dst_line\\(\\) == line', 'token.is_range()'),
+    ('types::Token::get_src_col', 'saturating_add', 'wrapping_add'),
+]
+
+
 def build(u):
     u.use_overlay('u2_lookup.ctr')
     u.use('use vstd::std_specs::cmp::*;')
